@@ -36,12 +36,33 @@ pub fn is_valid_identifier(s: &str) -> bool {
     chars.all(|c| c.is_ascii_alphanumeric() || c == '_')
 }
 
+/// Source text of a string value.
+///
+/// The grammar has no escape sequences: a string literal ends at the first occurrence of the
+/// quote character that opened it, and every other character stands for itself. The literal is
+/// therefore written with a quote character that does not occur in the string (double quotes
+/// preferred). A string containing both kinds cannot be a single literal; it is written as a
+/// parenthesised concatenation of the pieces between its double quotes.
+pub fn string_to_source(s: &str) -> String {
+    if !s.contains('"') {
+        format!("\"{}\"", s)
+    } else if !s.contains('\'') {
+        format!("'{}'", s)
+    } else {
+        let pieces: Vec<String> = s.split('"').map(|p| format!("\"{}\"", p)).collect();
+        format!("({})", pieces.join(" + '\"' + "))
+    }
+}
+
 /// Format a record key, adding quotes if necessary
 pub fn format_record_key(key: &str) -> String {
     if is_valid_identifier(key) {
         key.to_string()
+    } else if key.contains('"') && key.contains('\'') {
+        // not expressible as one literal: a computed key
+        format!("[{}]", string_to_source(key))
     } else {
-        format!("\"{}\"", key.replace('\\', "\\\\").replace('"', "\\\""))
+        string_to_source(key)
     }
 }
 
@@ -54,7 +75,7 @@ pub fn expr_to_source(spanned_expr: &SpannedExpr) -> String {
                 n.to_string()
             }
         }
-        Expr::String(s) => format!("\"{}\"", s.replace("\\", "\\\\").replace("\"", "\\\"")),
+        Expr::String(s) => string_to_source(s),
         Expr::Bool(b) => b.to_string(),
         Expr::Null => "null".to_string(),
         Expr::Identifier(name) => name.clone(),
@@ -369,7 +390,7 @@ pub fn expr_to_source_with_scope(
                 n.to_string()
             }
         }
-        Expr::String(s) => format!("\"{}\"", s.replace("\\", "\\\\").replace("\"", "\\\"")),
+        Expr::String(s) => string_to_source(s),
         Expr::Bool(b) => b.to_string(),
         Expr::Null => "null".to_string(),
         Expr::BuiltIn(built_in) => built_in.name().to_string(),
@@ -539,17 +560,25 @@ fn record_entry_to_source_with_scope(
 fn serializable_value_to_source(value: &SerializableValue) -> String {
     match value {
         SerializableValue::Number(n) => {
-            if n.fract() == 0.0 && n.abs() < 1e15 {
+            let text = if n.fract() == 0.0 && n.abs() < 1e15 {
                 format!("{:.0}", n)
             } else {
                 n.to_string()
+            };
+            if n.is_nan() {
+                // there is no NaN literal (`NaN` would be read as an identifier)
+                "(0/0)".to_string()
+            } else if n.is_sign_negative() {
+                // `-5` is the prefix operator applied to 5: without parentheses a following
+                // postfix operator (`!`, call, index, field) would bind to the 5 first
+                format!("({})", text)
+            } else {
+                text
             }
         }
         SerializableValue::Bool(b) => b.to_string(),
         SerializableValue::Null => "null".to_string(),
-        SerializableValue::String(s) => {
-            format!("\"{}\"", s.replace("\\", "\\\\").replace("\"", "\\\""))
-        }
+        SerializableValue::String(s) => string_to_source(s),
         SerializableValue::List(items) => {
             let items_str: Vec<String> = items.iter().map(serializable_value_to_source).collect();
             format!("[{}]", items_str.join(", "))
